@@ -135,8 +135,22 @@ def _gen_pair(rng, level, cfg):
                 m_rt["members"], _ = _gen_pair(rng, level + 1, cfg)
             if m_st and m_st["k"] == "class":
                 _, m_st["members"] = _gen_pair(rng, level + 1, cfg)
+    # inheritance between the generated classes of one scope (D(C), K nested...): the stubs may re-declare, in the
+    # derived class, a member that the runtime class merely inherits
+    rt_classes = [m for m in rt if m["k"] == "class"]
+    if len(rt_classes) >= 2 and rng.random() < 0.5:
+        base, derived = rt_classes[0], rt_classes[1]
+        derived["bases"] = [base["name"]]
+        st_derived = next((m for m in st if m["k"] == "class" and m["name"] == derived["name"]), None)
+        inheritable = [m for m in base["members"] if m["k"] in ("func", "attr") and m["name"] not in {x["name"] for x in derived["members"]}]
+        if st_derived is not None and inheritable and rng.random() < 0.7:
+            src = rng.choice(inheritable)
+            if src["name"] not in {x["name"] for x in st_derived["members"]}:
+                st_derived["members"].append(_gen_member(rng, src["name"], src["k"], "st", level + 1, cfg, like=src))
     rng.shuffle(rt)
     rng.shuffle(st)
+    # a base class must be defined before the classes deriving from it
+    rt.sort(key=lambda m: 0 if any(m["name"] in (o.get("bases") or []) for o in rt if o is not m) else 1)
     return rt, st
 
 
